@@ -392,7 +392,8 @@ theorem withdraw_facts {f f' : Fees} {owner : String} {id : Nat} {req o0 o1 : In
        (req = pos.liq ∧ getRec f'.acc.recs id = none ∧
           f'.out0 = f.out0 + claimAmt f.pool.scale rewards.a ∧ f'.out1 = f.out1 + claimAmt f.pool.scale rewards.b ∧
           f'.acc.totalShares = f.acc.totalShares - req ∧
-          (∀ s, get s f'.acc.global = get s f.acc.global + dustGrowthI f.pool.scale (get s rewards) (f.acc.totalShares - req)))) := by
+          (∀ s, get s f'.acc.global = get s f.acc.global + dustGrowthI f.pool.scale (get s rewards) (f.acc.totalShares - req)) ∧
+          (∀ s, 0 ≤ get s rewards))) := by
   obtain ⟨pos, a1, hfind, hw, hupd, hcase⟩ := withdraw_spec h
   obtain ⟨hmem, hid⟩ := find_id hfind
   obtain ⟨hc', _, hdesc, en, _, _, etick, _⟩ := withdraw_inv hi hw
@@ -409,7 +410,8 @@ theorem withdraw_facts {f f' : Fees} {owner : String} {id : Nat} {req o0 o1 : In
        (req = pos.liq ∧ getRec f'.acc.recs id = none ∧
           f'.out0 = f.out0 + claimAmt f.pool.scale rewards.a ∧ f'.out1 = f.out1 + claimAmt f.pool.scale rewards.b ∧
           f'.acc.totalShares = f.acc.totalShares - req ∧
-          (∀ s, get s f'.acc.global = get s f.acc.global + dustGrowthI f.pool.scale (get s rewards) (f.acc.totalShares - req)))) := by
+          (∀ s, get s f'.acc.global = get s f.acc.global + dustGrowthI f.pool.scale (get s rewards) (f.acc.totalShares - req)) ∧
+          (∀ s, 0 ≤ get s rewards))) := by
     have hrec1 : getRec a1.recs id = some ⟨id, r.shares + -req, insideF f pos.lower pos.upper, rewards⟩ := by
       rw [erecs1, getRec_setRec, if_pos rfl, hr]; rfl
     have hrec1o : ∀ x, x ≠ id → getRec a1.recs x = getRec f.acc.recs x := by
@@ -440,7 +442,7 @@ theorem withdraw_facts {f f' : Fees} {owner : String} {id : Nat} {req o0 o1 : In
         rw [this] at h1; omega
       have hta : total.a = rewards.a := htotal true
       have htb : total.b = rewards.b := htotal false
-      refine ⟨by rw [eacc]; simp only; rw [eo2, eo1], fun x hx => ?_, ?_, Or.inr ⟨heq, ?_, ?_, ?_, ?_, ?_⟩⟩
+      refine ⟨by rw [eacc]; simp only; rw [eo2, eo1], fun x hx => ?_, ?_, Or.inr ⟨heq, ?_, ?_, ?_, ?_, ?_, fun s => by rw [← htotal s]; exact (htot s).2.2⟩⟩
       · rw [eacc]; simp only; rw [erecs2, getRec_delRec, if_neg hx]; exact hrec1o x hx
       · intro x hx
         rw [eacc] at hx; simp only at hx
